@@ -11,6 +11,7 @@ import (
 	"context"
 	"encoding/json"
 	"fmt"
+	"io/fs"
 	"os"
 	"path/filepath"
 	"strings"
@@ -64,7 +65,114 @@ type world struct {
 	nontrivial bool
 	rootCfgAbs bool
 	notes      int
+
+	// histories (mutation ops between the loads)
+	history bool              // the case contains a mutation: markers are neutral, an os.Root is modelled by the directory it opened
+	rootCfg string            // the configured root spelling, as of now
+	invalid string            // non-empty: the configuration is not "a root directory" now (loads are not judged)
+	mutSeq  int               // mutations applied so far
+	stale   map[string]string // contents that were replaced or removed -> what they were
+	defined map[string]int    // file id -> mutSeq at its latest evaluation (its functions exist in the runtime)
 }
+
+// configure (re)computes what the configured root means in the model NOW.
+func (w *world) configure(rootCfg string) {
+	w.rootCfg = rootCfg
+	w.rootCfgAbs = isAbs(rootCfg)
+	w.realRoot, w.rootLinks = "", 0
+	base := w.m.base
+	switch w.mode {
+	case "rfs":
+		if r := w.m.resolve(w.cwdReal, rootCfg); r.Err == "" && r.Kind == "dir" {
+			w.realRoot = r.Path
+		}
+	case "osroot", "cli":
+		s := rootCfg
+		if !isAbs(s) {
+			s = w.cwdReal + "/" + s
+		}
+		w.rootAbs = lexClean(s)
+		if r := w.m.resolve("/", w.rootAbs); r.Err == "" && r.Kind == "dir" {
+			w.realRoot = r.Path
+			w.rootLinks = r.Links
+		}
+	case "mapfs":
+		w.rootAbs, w.realRoot = base, base
+	}
+	w.invalid = ""
+	switch r := w.m.resolve(w.cwdReal, rootCfg); {
+	case rootCfg == "":
+		w.invalid = "empty-root" // an empty RootDir means "no confinement": outside the property
+	case r.Err == "" && r.Kind != "dir":
+		// "a root directory configured": a root that is a regular file is not
+		// a configuration the property speaks about
+		w.invalid = "root-is-a-file"
+	case w.realRoot != "" && !inside(base, w.realRoot):
+		// the sandbox must stay sealed: the model knows nothing above the base
+		w.invalid = "root-above-base"
+	}
+}
+
+// pinOpenedRoot: an os.Root keeps the DIRECTORY it opened, whatever its name
+// comes to mean later (a link retargeted, the working directory changed); in
+// a history the model therefore names the file system by that directory.
+func (w *world) pinOpenedRoot() {
+	if w.history && w.realRoot != "" {
+		w.rootAbs, w.rootLinks = w.realRoot, 0
+	}
+}
+
+// outsideBytes reports whether data carries the marker of a file that is
+// outside the root now.
+func (w *world) outsideBytes(data []byte) bool {
+	if !w.history {
+		return bytes.Contains(data, []byte("OUTSIDE:"))
+	}
+	for id, n := range w.m.files {
+		if !w.isInside(n) && bytes.Contains(data, []byte("; FILE:"+id+"\n")) {
+			return true
+		}
+	}
+	return false
+}
+
+func fnName(ref string) (name, id string, k int, ok bool) {
+	i := strings.Index(ref, "/")
+	if i <= 0 {
+		return "", "", 0, false
+	}
+	id = ref[:i]
+	for _, c := range id {
+		if !(c >= '0' && c <= '9' || c >= 'a' && c <= 'z' || c >= 'A' && c <= 'Z') {
+			return "", "", 0, false
+		}
+	}
+	k = 0
+	if ref[i+1:] == "" || len(ref[i+1:]) > 2 {
+		return "", "", 0, false
+	}
+	for _, c := range ref[i+1:] {
+		if c < '0' || c > '9' {
+			return "", "", 0, false
+		}
+		k = k*10 + int(c-'0')
+	}
+	return fmt.Sprintf("c20f-%s-%d", id, k), id, k, true
+}
+
+func okID(id string) bool {
+	if id == "" || len(id) > 12 {
+		return false
+	}
+	for _, c := range id {
+		if !(c >= '0' && c <= '9' || c >= 'a' && c <= 'z' || c >= 'A' && c <= 'Z') {
+			return false
+		}
+	}
+	return true
+}
+
+const defBase = 100 // "refused" index of the load made by function k is defBase+k
 
 func (w *world) isInside(n *Node) bool {
 	return w.realRoot != "" && inside(w.realRoot, w.m.abs(n))
@@ -113,12 +221,26 @@ func (w *world) foldSibling(p string) bool {
 func fileContent(n *Node, mark string, base string) string {
 	var b strings.Builder
 	fmt.Fprintf(&b, "; %s:%s\n(probe \"begin\" \"%s\")\n", mark, n.ID, n.ID)
+	for k, l := range n.Defs {
+		l = subst(l, base)
+		if strings.ContainsAny(l, "\"\\\n") {
+			l = "c20-unspeakable"
+		}
+		fmt.Fprintf(&b, "(defun c20f-%s-%d () (handler-bind ((condition (lambda (c &rest _) (probe \"refused\" \"%s\" %d)))) (load-file \"%s\")))\n", n.ID, k, n.ID, defBase+k, l)
+	}
 	for k, l := range n.Loads {
 		l = subst(l, base)
 		if strings.ContainsAny(l, "\"\\\n") {
 			continue
 		}
 		fmt.Fprintf(&b, "(handler-bind ((condition (lambda (c &rest _) (probe \"refused\" \"%s\" %d)))) (load-file \"%s\"))\n", n.ID, k, l)
+	}
+	for k, c := range n.Calls {
+		fn, _, _, ok := fnName(c)
+		if !ok {
+			continue
+		}
+		fmt.Fprintf(&b, "(handler-bind ((condition (lambda (c &rest _) (probe \"nocall\" \"%s\" %d)))) (%s))\n", n.ID, k, fn)
 	}
 	fmt.Fprintf(&b, "(probe \"end\" \"%s\")\n", n.ID)
 	return b.String()
@@ -128,6 +250,9 @@ func (w *world) contentOf(n *Node) string {
 	mark := "OUTSIDE"
 	if w.isInside(n) {
 		mark = "INSIDE"
+	}
+	if w.history {
+		mark = "FILE" // what is inside changes during the case
 	}
 	if w.mode == "cli" {
 		return cliContent(n, mark, w.m.base)
@@ -238,6 +363,14 @@ func (w *world) judge(ctxLoc, loc string) verdict {
 }
 
 func (w *world) keyPrefix() string {
+	if w.mutSeq > 0 {
+		// a load made after the configuration or the layout changed
+		switch w.mode {
+		case "osroot":
+			return "osroot-history-"
+		}
+		return "history-"
+	}
 	switch w.mode {
 	case "osroot":
 		return "osroot-"
@@ -288,7 +421,7 @@ func (w *world) checkCall(e event, ctx *vcommon.Ctx) (*Node, *vcommon.Failure) {
 		ctx.Note(fmt.Sprintf("non-trivial load (%s, resolves outside=%v sibling=%v links=%d): ctx=%q loc=%q -> %s", feat, v.outside, v.sibling, v.links, e.CtxLoc, e.Loc, out))
 	}
 	if e.Err != nil {
-		if bytes.Contains(e.Data, []byte("OUTSIDE:")) {
+		if w.outsideBytes(e.Data) {
 			return nil, vcommon.Failf(w.keyPrefix()+"escape/bytes-with-error", "%s: error %v returned together with outside bytes %q", desc, e.Err, e.Data)
 		}
 		switch {
@@ -311,7 +444,10 @@ func (w *world) checkCall(e event, ctx *vcommon.Ctx) (*Node, *vcommon.Failure) {
 	}
 	n, known := w.content[string(e.Data)]
 	if !known {
-		if bytes.Contains(e.Data, []byte("OUTSIDE:")) {
+		if what, was := w.stale[string(e.Data)]; was {
+			return nil, vcommon.Failf(w.keyPrefix()+"stale/served-replaced-content", "%s: returned the content of %s, which is not on the disk any more: %q", desc, what, e.Data)
+		}
+		if w.outsideBytes(e.Data) {
 			return nil, vcommon.Failf(w.keyPrefix()+"escape/outside-bytes", "%s: returned bytes carrying an OUTSIDE marker: %q", desc, e.Data)
 		}
 		return nil, vcommon.Failf(w.keyPrefix()+"serve/unknown-bytes", "%s: returned bytes that are no sandbox file's exact content: %q (err=nil)", desc, e.Data)
@@ -399,6 +535,12 @@ func (s *sim) at(i int) string {
 // load consumes the library call for (load-file loc) issued by exec (nil for
 // the top level) and, when it was served, the evaluation of the served file.
 func (s *sim) load(i int, exec *Node, wantCtx *string, loc string) (int, *Node, *vcommon.Failure) {
+	return s.loadVia(i, exec, wantCtx, loc, false)
+}
+
+// loadVia: viaFn = the load-file expression is the body of a FUNCTION defined
+// by file exec and called from somewhere else.
+func (s *sim) loadVia(i int, exec *Node, wantCtx *string, loc string, viaFn bool) (int, *Node, *vcommon.Failure) {
 	if i >= len(s.ev) || !s.ev[i].Call || s.ev[i].Loc != loc {
 		return i, nil, vcommon.Failf(s.w.keyPrefix()+"trace/missing-load", "expected the library call for location %q, trace has %s", loc, s.at(i))
 	}
@@ -409,13 +551,27 @@ func (s *sim) load(i int, exec *Node, wantCtx *string, loc string) (int, *Node, 
 	} else {
 		okCtx = s.w.ctxNames(e.CtxLoc, exec)
 	}
+	if !okCtx && viaFn && exec != nil && s.w.defined[exec.ID] < s.w.mutSeq {
+		// the function was defined before the layout changed: what its
+		// recorded location names now is not decided by the property
+		s.ctx.Class("context:unverified-after-mutation")
+		okCtx = true
+	}
 	if !okCtx {
 		who := "<top level>"
 		if exec != nil {
 			who = exec.ID + " (" + exec.Path + ")"
 		}
-		return i, nil, vcommon.Failf(s.w.keyPrefix()+"context/not-the-loading-file",
+		key := "context/not-the-loading-file"
+		if viaFn {
+			key = "context/not-the-file-containing-the-call"
+			who = "a function defined in " + who
+		}
+		return i, nil, vcommon.Failf(s.w.keyPrefix()+key,
 			"load of %q issued by %s reached the library with context location %q, which does not name that file", loc, who, e.CtxLoc)
+	}
+	if viaFn {
+		s.ctx.Class("op:load-from-function")
 	}
 	n, f := s.w.checkCall(e, s.ctx)
 	if f != nil {
@@ -430,17 +586,46 @@ func (s *sim) load(i int, exec *Node, wantCtx *string, loc string) (int, *Node, 
 }
 
 func (s *sim) expect(i int, kind, id string, n int) *vcommon.Failure {
-	if i < len(s.ev) && !s.ev[i].Call && s.ev[i].Kind == kind && s.ev[i].ID == id && (kind != "refused" || s.ev[i].N == n) {
+	if i < len(s.ev) && !s.ev[i].Call && s.ev[i].Kind == kind && s.ev[i].ID == id && ((kind != "refused" && kind != "nocall") || s.ev[i].N == n) {
 		return nil
 	}
 	return vcommon.Failf(s.w.keyPrefix()+"trace/evaluation-differs",
 		"expected effect probe(%s %s %d) from evaluating exactly the served bytes, trace has %s", kind, id, n, s.at(i))
 }
 
+// call consumes the effects of calling function ref ("<ID>/<k>"): the load
+// made by its body, attributed to the file that DEFINES it.  defined=false is
+// returned when the runtime cannot know the function.
+func (s *sim) call(i int, ref string) (int, bool, *vcommon.Failure) {
+	_, id, k, ok := fnName(ref)
+	d := s.w.m.files[id]
+	if _, def := s.w.defined[id]; !ok || !def || d == nil || k >= len(d.Defs) {
+		return i, false, nil
+	}
+	l := subst(d.Defs[k], s.w.m.base)
+	if strings.ContainsAny(l, "\"\\\n") {
+		l = "c20-unspeakable"
+	}
+	i, served, f := s.loadVia(i, d, nil, l, true)
+	if f != nil {
+		return i, true, f
+	}
+	if served == nil {
+		if f := s.expect(i, "refused", d.ID, defBase+k); f != nil {
+			return i, true, f
+		}
+		i++
+	} else {
+		s.ctx.Class("op:function-load-served")
+	}
+	return i, true, nil
+}
+
 func (s *sim) file(i int, n *Node) (int, *vcommon.Failure) {
 	if f := s.expect(i, "begin", n.ID, 0); f != nil {
 		return i, f
 	}
+	s.w.defined[n.ID] = s.w.mutSeq
 	i++
 	for k, l := range n.Loads {
 		l = subst(l, s.w.m.base)
@@ -460,6 +645,23 @@ func (s *sim) file(i int, n *Node) (int, *vcommon.Failure) {
 			i++
 		} else {
 			s.ctx.Class("op:nested-load-served")
+		}
+	}
+	for k, c := range n.Calls {
+		if _, _, _, ok := fnName(c); !ok {
+			continue
+		}
+		var def bool
+		var f *vcommon.Failure
+		i, def, f = s.call(i, c)
+		if f != nil {
+			return i, f
+		}
+		if !def {
+			if f := s.expect(i, "nocall", n.ID, k); f != nil {
+				return i, f
+			}
+			i++
 		}
 	}
 	if f := s.expect(i, "end", n.ID, 0); f != nil {
@@ -504,6 +706,9 @@ func checkCase(c Case, ctx *vcommon.Ctx) (fail *vcommon.Failure) {
 	if c.Mode != "rfs" && c.Mode != "osroot" && c.Mode != "mapfs" && c.Mode != "cli" {
 		return nil
 	}
+	orig := c
+	// the oracle works on its own copy of the nodes: mutation ops change them
+	c.SB.Nodes = append([]Node(nil), c.SB.Nodes...)
 	oldwd, err := os.Getwd()
 	must(err)
 	var base string
@@ -518,43 +723,23 @@ func checkCase(c Case, ctx *vcommon.Ctx) (fail *vcommon.Failure) {
 	} else {
 		base = "/M"
 	}
-	w := &world{mode: c.Mode, m: newModel(&c.SB, base), content: map[string]*Node{}}
+	w := &world{mode: c.Mode, m: newModel(&c.SB, base), content: map[string]*Node{}, stale: map[string]string{}, defined: map[string]int{}}
+	for _, op := range c.Ops {
+		if isMutation(op.Entry) && onDisk && c.Mode != "cli" {
+			w.history = true
+		}
+	}
 	w.cwdReal = base
 	if cn, ok := w.m.nodes[base+"/"+c.SB.Cwd]; ok && cn.Kind == "dir" {
 		w.cwdReal = base + "/" + c.SB.Cwd
 	}
 	rootCfg := subst(c.SB.Root, base)
-	w.rootCfgAbs = isAbs(rootCfg)
-	switch c.Mode {
-	case "rfs":
-		if r := w.m.resolve(w.cwdReal, rootCfg); r.Err == "" && r.Kind == "dir" {
-			w.realRoot = r.Path
-		}
-	case "osroot", "cli":
-		s := rootCfg
-		if !isAbs(s) {
-			s = w.cwdReal + "/" + s
-		}
-		w.rootAbs = lexClean(s)
-		if r := w.m.resolve("/", w.rootAbs); r.Err == "" && r.Kind == "dir" {
-			w.realRoot = r.Path
-			w.rootLinks = r.Links
-		}
-	case "mapfs":
-		w.rootAbs, w.realRoot = base, base
-	}
-	if rootCfg == "" {
-		return nil // an empty RootDir means "no confinement": outside the property
-	}
-	if r := w.m.resolve(w.cwdReal, rootCfg); r.Err == "" && r.Kind != "dir" {
-		// "a root directory configured": a root that is a regular file is not
-		// a configuration the property speaks about
-		ctx.Class("skip:root-is-a-file")
+	w.configure(rootCfg)
+	if w.invalid == "empty-root" {
 		return nil
 	}
-	if w.realRoot != "" && !inside(base, w.realRoot) {
-		// the sandbox must stay sealed: the model knows nothing above the base
-		ctx.Class("skip:root-above-base")
+	if w.invalid != "" {
+		ctx.Class("skip:" + w.invalid)
 		return nil
 	}
 
@@ -592,28 +777,42 @@ func checkCase(c Case, ctx *vcommon.Ctx) (fail *vcommon.Failure) {
 	if c.Mode == "cli" {
 		return w.runCLI(c, ctx)
 	}
-	// the library under test, configured the way the anchored code does
+	// the library under test, configured the way the anchored code does; ONE
+	// library value and one runtime serve every operation of the case
 	var log []event
 	var inner lisp.SourceLibrary
-	switch c.Mode {
-	case "rfs":
-		inner = &lisp.RelativeFileSystemLibrary{RootDir: rootCfg}
-	case "osroot":
-		// what cmd/run.go, cmd/debug.go and repl/repl.go configure:
-		// filepath.Abs, os.OpenRoot, FSLibrary over root.FS().  In-process
-		// twin of the "cli" sub-property (which runs the real binary).
-		abs, err := filepath.Abs(rootCfg)
+	var rfsLib *lisp.RelativeFileSystemLibrary
+	var fsLib *lisp.FSLibrary
+	var opened []*os.Root
+	defer func() {
+		for _, r := range opened {
+			r.Close()
+		}
+	}()
+	// openRoot: what cmd/run.go, cmd/debug.go and repl/repl.go configure:
+	// filepath.Abs, os.OpenRoot, FSLibrary over root.FS().  In-process twin of
+	// the "cli" sub-property (which runs the real binary).
+	openRoot := func(cfg string) fs.FS {
+		abs, err := filepath.Abs(cfg)
 		must(err)
 		if abs != w.rootAbs {
 			panic(fmt.Sprintf("harness: model root %q != filepath.Abs %q", w.rootAbs, abs))
 		}
+		w.pinOpenedRoot()
 		r, err := os.OpenRoot(abs)
 		if err != nil {
-			inner = &lisp.FSLibrary{FS: fstest.MapFS{}} // the CLI exits: nothing is ever served
-		} else {
-			defer r.Close()
-			inner = &lisp.FSLibrary{FS: r.FS()}
+			return fstest.MapFS{} // the CLI exits: nothing is ever served
 		}
+		opened = append(opened, r)
+		return r.FS()
+	}
+	switch c.Mode {
+	case "rfs":
+		rfsLib = &lisp.RelativeFileSystemLibrary{RootDir: rootCfg}
+		inner = rfsLib
+	case "osroot":
+		fsLib = &lisp.FSLibrary{FS: openRoot(rootCfg)}
+		inner = fsLib
 	case "mapfs":
 		inner = &lisp.FSLibrary{FS: mapfs}
 	}
@@ -634,28 +833,86 @@ func checkCase(c Case, ctx *vcommon.Ctx) (fail *vcommon.Failure) {
 			return lisp.String(e.ID)
 		}))
 
-	if w.realRoot == "" {
-		ctx.Class("root:unresolvable")
-	} else if c.Mode != "mapfs" {
-		if r := w.m.resolve(w.cwdReal, rootCfg); r.Links > 0 {
-			ctx.Class("root:is-symlink")
+	rootClasses := func() {
+		if w.realRoot == "" {
+			ctx.Class("root:unresolvable")
+		} else if c.Mode != "mapfs" {
+			if r := w.m.resolve(w.cwdReal, w.rootCfg); r.Links > 0 {
+				ctx.Class("root:is-symlink")
+			}
+		}
+		if inside(w.realRoot, w.cwdReal) && w.realRoot != "" {
+			ctx.Class("cwd:inside-root")
 		}
 	}
-	if inside(w.realRoot, w.cwdReal) && w.realRoot != "" {
-		ctx.Class("cwd:inside-root")
+	rootClasses()
+	if w.history {
+		ctx.Class("case:history")
 	}
 
 	servedAny := false
 	var known *vcommon.Failure
+	lastMut := ""
 	for oi, op := range c.Ops {
 		log = log[:0]
 		limitHit = false
+		if isMutation(op.Entry) {
+			if !w.history {
+				continue
+			}
+			before := w.realRoot
+			ok := false
+			if op.Entry == "setroot" {
+				cfg := subst(op.Arg, base)
+				if cfg != "" && !strings.ContainsRune(cfg, 0) {
+					ok = true
+					w.configure(cfg)
+					switch c.Mode {
+					case "rfs":
+						// the exported field is reassigned on the SAME library value
+						rfsLib.RootDir = cfg
+					case "osroot":
+						// the same library value gets a newly opened root
+						fsLib.FS = openRoot(cfg)
+					}
+				}
+			} else {
+				ok = w.mutate(op)
+				if ok && c.Mode == "rfs" {
+					w.configure(w.rootCfg) // RootDir is resolved at every load
+				}
+			}
+			if !ok {
+				ctx.Class("mut:ill-formed-skipped")
+				continue
+			}
+			w.mutSeq++
+			lastMut = op.Entry
+			ctx.Class("mut:" + op.Entry)
+			if w.realRoot != before {
+				ctx.Class("mut:root-means-another-directory")
+				if op.Entry != "setroot" {
+					ctx.Class("mut:root-moved-by-" + op.Entry)
+				}
+			}
+			continue
+		}
+		if w.invalid != "" {
+			ctx.Class("skip:" + w.invalid)
+			continue
+		}
 		loc := subst(op.Loc, base)
 		opctx := subst(op.Ctx, base)
 		if strings.ContainsAny(loc, "\"\\\n\x00") || strings.ContainsAny(opctx, "\"\\\n\x00") {
 			continue
 		}
 		ctx.Class("entry:" + op.Entry)
+		if w.mutSeq > 0 {
+			ctx.Class("op:load-after-" + lastMut)
+		}
+		if opctx != "" {
+			w.ctxClasses(opctx, ctx)
+		}
 		var res *lisp.LVal
 		switch op.Entry {
 		case "lib":
@@ -681,8 +938,15 @@ func checkCase(c Case, ctx *vcommon.Ctx) (fail *vcommon.Failure) {
 		case "loadfilectx":
 			opctx = ""
 			res = rt.Env.LoadFileContext(context.Background(), loc)
-		case "lisp":
+		case "lisp", "call":
 			src := fmt.Sprintf("(load-file \"%s\")", loc)
+			if op.Entry == "call" {
+				fn, _, _, ok := fnName(op.Loc)
+				if !ok {
+					continue
+				}
+				src = "(" + fn + ")"
+			}
 			if opctx == "" {
 				res = rt.Env.LoadString("main", src)
 			} else {
@@ -698,6 +962,12 @@ func checkCase(c Case, ctx *vcommon.Ctx) (fail *vcommon.Failure) {
 			return vcommon.Failf("internal-panic", "op %d (%s ctx=%q loc=%q): recovered Go panic: %v", oi, op.Entry, opctx, loc, res)
 		}
 		f, served := w.checkOp(oi, op.Entry, opctx, loc, log, limitHit, res, ctx)
+		// whatever was evaluated defined its functions in the runtime
+		for _, e := range log {
+			if !e.Call && e.Kind == "begin" {
+				w.defined[e.ID] = w.mutSeq
+			}
+		}
 		if f != nil {
 			if ctx.Known(f.Key) {
 				// a listed finding: remember it, keep checking the other loads
@@ -720,10 +990,127 @@ func checkCase(c Case, ctx *vcommon.Ctx) (fail *vcommon.Failure) {
 	}
 	// the distinct key of a non-trivial case is the whole case
 	if w.nontrivial {
-		b, _ := json.Marshal(c)
+		b, _ := json.Marshal(orig)
 		ctx.NonTrivial(string(b))
 	}
 	return known
+}
+
+// ctxClasses classifies the spelling of a loading-file context.
+func (w *world) ctxClasses(opctx string, ctx *vcommon.Ctx) {
+	if w.mode == "rfs" {
+		switch {
+		case !isAbs(opctx):
+			ctx.Class("ctx:relative-to-cwd")
+		case lexClean(opctx) != opctx:
+			ctx.Class("ctx:absolute-unclean")
+		default:
+			ctx.Class("ctx:absolute-clean")
+		}
+		return
+	}
+	c := lexClean(opctx)
+	switch {
+	case strings.HasPrefix(opctx, w.m.base+"/"):
+		ctx.Class("ctx:host-absolute-path")
+	case c == ".." || strings.HasPrefix(c, "../"):
+		ctx.Class("ctx:outside-the-fs")
+	case isAbs(opctx):
+		ctx.Class("ctx:rooted")
+	case c != opctx:
+		ctx.Class("ctx:unclean (./, //, X/..)")
+	default:
+		ctx.Class("ctx:clean-unrooted")
+	}
+	if isAbs(opctx) && hasDotDot(opctx) {
+		ctx.Class("ctx:rooted-with-dotdot")
+	}
+}
+
+// mutate applies a layout / working-directory mutation to the model and to
+// the disk.  Ill-formed mutations (possible after shrinking or in a
+// hand-edited replay) are skipped by returning false.
+func (w *world) mutate(op Op) bool {
+	base := w.m.base
+	if op.Path == "" || strings.HasPrefix(op.Path, "/") || strings.ContainsRune(op.Path, 0) || strings.ContainsRune(op.Arg, 0) {
+		return false
+	}
+	abs := base + "/" + op.Path
+	n := w.m.nodes[abs]
+	atomicWrite := func(write func(tmp string) error) {
+		tmp := parentOf(abs) + "/.c20-tmp"
+		os.Remove(tmp)
+		must(write(tmp))
+		must(os.Rename(tmp, abs))
+	}
+	if (op.Entry == "replace" || op.Entry == "create-file") && !okID(op.Arg) {
+		return false
+	}
+	switch op.Entry {
+	case "chdir":
+		if n == nil || n.Kind != "dir" {
+			return false
+		}
+		must(os.Chdir(abs))
+		w.cwdReal = abs
+	case "retarget":
+		if n == nil || n.Kind != "link" || op.Arg == "" {
+			return false
+		}
+		n.Target = op.Arg
+		atomicWrite(func(tmp string) error { return os.Symlink(subst(op.Arg, base), tmp) })
+	case "replace":
+		// (files that define functions keep their identity: see NOTES.md)
+		if n == nil || n.Kind != "file" || len(n.Defs) > 0 {
+			return false
+		}
+		old, oldID := w.contentOf(n), n.ID
+		if !w.m.reid(n, op.Arg) {
+			return false
+		}
+		delete(w.content, old)
+		w.stale[old] = fmt.Sprintf("file %s (%s) before it was replaced", oldID, n.Path)
+		txt := w.contentOf(n)
+		w.content[txt] = n
+		atomicWrite(func(tmp string) error { return os.WriteFile(tmp, []byte(txt), 0o644) })
+	case "remove":
+		if n == nil || n.Kind == "dir" || len(n.Defs) > 0 {
+			return false
+		}
+		if n.Kind == "file" {
+			old := w.contentOf(n)
+			delete(w.content, old)
+			w.stale[old] = fmt.Sprintf("file %s (%s) before it was removed", n.ID, n.Path)
+		}
+		if !w.m.remove(n) {
+			return false
+		}
+		must(os.Remove(abs))
+	case "create-file", "create-link":
+		nn := &Node{Path: op.Path, Kind: "file", ID: op.Arg}
+		if op.Entry == "create-link" {
+			nn = &Node{Path: op.Path, Kind: "link", Target: op.Arg}
+			if op.Arg == "" {
+				return false
+			}
+		}
+		if !w.m.add(nn) {
+			return false
+		}
+		if nn.Kind == "file" {
+			txt := w.contentOf(nn)
+			if _, dup := w.stale[txt]; dup {
+				delete(w.stale, txt)
+			}
+			w.content[txt] = nn
+			must(os.WriteFile(abs, []byte(txt), 0o644))
+		} else {
+			must(os.Symlink(subst(op.Arg, base), abs))
+		}
+	default:
+		return false
+	}
+	return true
 }
 
 // checkOp judges one env-level load: its result value and its event log.
@@ -756,6 +1143,27 @@ func (w *world) checkOp(oi int, entry, opctx, loc string, log []event, limitHit 
 	// the trace is exactly: the library call, then the evaluation of exactly
 	// the served bytes, recursively
 	s := &sim{w: w, ev: log, ctx: ctx}
+	if entry == "call" {
+		// a function whose body is a load-file, called from the top level
+		end, def, f := s.call(0, loc)
+		if f != nil {
+			return f, false
+		}
+		if f := scan(); f != nil {
+			return f, false
+		}
+		if !def {
+			ctx.Class("op:call-of-undefined-function")
+			if len(log) != 0 || res.Type != lisp.LError {
+				return vcommon.Failf(w.keyPrefix()+"trace/undefined-function-ran", "%s: no evaluated file defines the function, yet the call produced %s / value %v", where, s.at(0), res), false
+			}
+			return nil, false
+		}
+		if end != len(log) {
+			return vcommon.Failf(w.keyPrefix()+"trace/extra-events", "%s: unexpected trailing events from %s", where, s.at(end)), false
+		}
+		return nil, false
+	}
 	end, served, f := s.load(0, nil, &opctx, loc)
 	if f != nil {
 		return f, false
@@ -785,5 +1193,9 @@ func TestCheck(t *testing.T) {
 		vcommon.S("cli", 1280, 48000, genCase("cli"), checkCase),
 		vcommon.S("mapfs", 6400, 320000, genCase("mapfs"), checkCase),
 		vcommon.S("toctou", 160, 3200, genRace(), checkRace),
+		// histories: one library value and one runtime, the configuration or
+		// the layout changed between the loads
+		vcommon.S("history", 4000, 200000, genCaseH("rfs", true), checkCase),
+		vcommon.S("osroot-history", 1600, 80000, genCaseH("osroot", true), checkCase),
 	)
 }
